@@ -38,8 +38,8 @@
 (* order the code uses (direct references first, then component            *)
 (* references, then updateInputs, then the :copyout references); Mut = a   *)
 (* producer (or the user) changes a source; Write = the consumer's task    *)
-(* writes into its working directory (open(.., "w"): through links); Iterate*)
-(* = the loop gets its next iteration (the placeholder moves on);          *)
+(* writes into its working directory (open(.., "w"): through links);       *)
+(* Iterate = the loop gets its next iteration (the placeholder moves on);  *)
 (* Restart(restage) = elaunch -r on the instance: new Job / new            *)
 (* JobWorkingDirectory, stage-in only with --restageData.                  *)
 (*                                                                         *)
@@ -58,9 +58,9 @@
 (*               already the right one is kept, a directory is refreshed   *)
 (*               in place (nothing else in it is removed).                 *)
 (* Named deviations (the code does it, a stronger promise fails; each has  *)
-(* a TLC witness run by the driver): GlobLiteral, ToleratedMissing,        *)
-(* HalfStagedOnError, CopyKeepsSymlinks, RestartOutputsBecomeInputs,       *)
-(* CopyoutBecomesInput, LinkWriteThrough.                                  *)
+(* a TLC witness run by the driver; see the end of the module):            *)
+(* GlobLiteral, ToleratedMissing, HalfStagedOnError, CopyKeepsSymlinks,    *)
+(* RestartOutputsBecomeInputs, CopyoutBecomesInput, LinkWriteThrough.      *)
 (***************************************************************************)
 EXTENDS Integers, Sequences, FiniteSets, TLC, Json
 
@@ -254,7 +254,7 @@ InitWith(rs, rp, mg, s) ==
     /\ wd = {} /\ wdlink = FALSE /\ inputs = {} /\ pc = "idle" /\ plan = <<>> /\ idx = 0 /\ miss = <<>>
     /\ res = "none" /\ staged = FALSE /\ launch = "none" /\ tick = Tick0
     /\ nmut = 0 /\ nwr = 0 /\ nrs = 0 /\ nag = 0 /\ nev = 0 /\ restarted = FALSE
-    /\ own = {} /\ gok = [v |-> FALSE, wd |-> {}, src |-> s] /\ bsame = FALSE /\ bwd = {} /\ wtop = "" /\ clean = FALSE /\ dev = {} /\ hist = <<>>
+    /\ own = {} /\ gok = [v |-> FALSE, wd |-> {}, src |-> s, ni |-> 1] /\ bsame = FALSE /\ bwd = {} /\ wtop = "" /\ clean = FALSE /\ dev = {} /\ hist = <<>>
 
 Init == \E rs \in RefLists : \E rp \in Reps : \E sel \in [VarLocs(rs) -> {"none", "file", "dir"}] :
             /\ \A l \in VarLocs(rs) : sel[l] \in KindsOf(l)
@@ -265,7 +265,7 @@ Init == \E rs \in RefLists : \E rp \in Reps : \E sel \in [VarLocs(rs) -> {"none"
 BeginCore(lab) ==
     /\ pc' = "staging" /\ idx' = 1 /\ miss' = <<>>
     /\ plan' = IF mig THEN <<[op |-> "mig", r |-> 1]>> ELSE PlanOf(refs)
-    /\ bsame' = (gok.v /\ gok.wd = wd /\ gok.src = src) /\ bwd' = wd
+    /\ bsame' = (gok.v /\ gok.wd = wd /\ gok.src = src /\ gok.ni = niter) /\ bwd' = wd
     /\ hist' = Append(hist, lab)
 
 (* the first stage-in of the component (Controller.finalize_submit_components) *)
@@ -327,7 +327,7 @@ End ==
     /\ pc' = "idle"
     /\ IF miss = <<>>
        THEN /\ res' = "ok" /\ staged' = TRUE /\ launch' = "yes" /\ clean' = TRUE
-            /\ gok' = [v |-> TRUE, wd |-> wd, src |-> src]
+            /\ gok' = [v |-> TRUE, wd |-> wd, src |-> src, ni |-> niter]
        ELSE /\ res' = "missing" /\ launch' = (IF \A j \in 1..Len(miss) : Tolerated(refs[miss[j]]) THEN "yes" ELSE "failed")
             /\ clean' = FALSE /\ UNCHANGED <<staged, gok>>
     /\ UNCHANGED <<refs, rep, mig, isrc, niter, src, wd, wdlink, inputs, plan, idx, miss, tick, nmut, nwr, nrs, nag, nev, restarted, own, bsame, bwd, wtop, dev>>
@@ -445,8 +445,8 @@ StagingLeavesSources == [][pc = "staging" => src' = src]_vars
 (* a private copy: a change of a source never shows in the working directory (links excepted: they are entries naming the source) *)
 SourceChangeInvisible == [][nmut' # nmut => wd' = wd]_vars
 
-(* :ref and :output stage nothing; updateInputs changes no file *)
-RefStagesNothing == [][(pc = "staging" /\ idx <= Len(plan) /\ plan[idx].op = "ref" /\ refs[plan[idx].r].m = "ref") => wd' = wd]_vars
+(* :ref, :loopref and :loopoutput stage nothing (:output is not even looked at); updateInputs changes no file *)
+RefStagesNothing == [][(pc = "staging" /\ idx <= Len(plan) /\ plan[idx].op = "ref" /\ refs[plan[idx].r].m \in {"ref", "loopref", "loopoutput"}) => wd' = wd]_vars
 UpdChangesNoFile == [][(pc = "staging" /\ idx <= Len(plan) /\ plan[idx].op = "upd") => wd' = wd]_vars
 
 (* which reference staged a top-level name last (in the order of the plan) *)
@@ -491,7 +491,7 @@ RestartKeeps == [][(nrs' # nrs /\ pc' = "idle") => (wd' = wd /\ src' = src /\ la
 (* staging (first, again, restaged) never removes or rewrites a file the task made itself *)
 OwnOutputsSurvive == [][pc = "staging" => \A e \in wd : e.p \in own => e \in wd']_vars
 
-(* a stage-in that fails leaves the sources alone and the working directory a directory *)
+(* only the working directory of a migrated component is ever replaced by a link *)
 StillADirectory == wdlink => mig
 
 (* inputs / outputs: right after the first successful stage-in the inputs are exactly what the non-:copyout references staged *)
@@ -523,7 +523,6 @@ CopyoutNeverInput == (pc = "idle" /\ res = "ok" /\ ~mig) =>
 
 -----------------------------------------------------------------------------
 (* for the conformance driver: the part of the state the real code shows *)
-RelLocs == {l \in Locs : src[l].k # "none" \/ l \in RefLocs(refs) \/ l \in MutLocs}
 Proj == [i0 |-> [l \in Locs \ Virtual |-> isrc[l]], wd |-> wd, src |-> [l \in Locs \ Virtual |-> src[l]], ni |-> niter, inp |-> inputs, wl |-> wdlink, st |-> staged, res |-> res, launch |-> launch,
          pc |-> pc, dev |-> dev]
 Header == [refs |-> refs, rep |-> rep, mig |-> mig]
